@@ -179,6 +179,12 @@ func c10One(c *C10Case, phase func(string)) C10Obs {
 	return o
 }
 
+// the document uses one of the schemas that reach themselves through a composition
+func c10UsesCycle(c *C10Case) bool {
+	pb, _ := json.Marshal(c.Doc["paths"])
+	return regexp.MustCompile(`#/components/schemas/R(Any|All|One)"`).Match(pb)
+}
+
 // ---- generation ----
 func c10Schema(r *Rng, depth int) map[string]any {
 	g := randSchema(r, depth, SchemaGenOpts{Formats: true, ReadOnly: true, Hostile: true})
@@ -234,6 +240,9 @@ var c10Cells = [][3]any{{"path", "simple", false}, {"path", "label", true}, {"pa
 func c10Random(r *Rng) C10Case {
 	comps := jobj("schemas", jobj("Rec", jobj("type", "object", "properties", jobj("next", jref("schemas", "Rec"), "v", c10Schema(r, 1))),
 		"S", c10Schema(r, 2),
+		"D", jobj("type", "object", "properties", jobj("n", jobj("type", "integer", "default", 1.0),
+			"cfg", jobj("type", "object", "default", jobj(), "properties", jobj("b", jobj("type", "string", "default", "x"), "c", jobj("type", "integer", "default", 3.0),
+				"deep", jobj("type", "object", "default", jobj(), "properties", jobj("z", jobj("type", "boolean", "default", true))))))),
 		"RAny", jobj("anyOf", []any{jref("schemas", "RAny"), jobj("type", "string")}),
 		"RAll", jobj("allOf", []any{jobj("type", "string"), jref("schemas", "RAll")}),
 		"ROne", jobj("oneOf", []any{jobj("type", "integer"), jref("schemas", "ROne")})))
@@ -321,7 +330,7 @@ func c10Random(r *Rng) C10Case {
 				content := map[string]any{}
 				for k := 0; k < 1+r.Intn(2); k++ {
 					ct := Pick(r, []string{"application/json", "text/plain", "application/x-www-form-urlencoded", "multipart/form-data", "application/octet-stream", "application/problem+json", "*/*", "text/csv", "application/zip", "application/x-yaml"})
-					mt := jobj("schema", Pick(r, []any{c10Schema(r, 2), jref("schemas", "Rec"), jobj("type", "object", "properties", jobj("a", c10Schema(r, 1), "f", jobj("type", "string", "format", "binary")))}))
+					mt := jobj("schema", Pick(r, []any{c10Schema(r, 2), jref("schemas", "Rec"), jref("schemas", "D"), jobj("type", "object", "properties", jobj("a", c10Schema(r, 1), "f", jobj("type", "string", "format", "binary")))}))
 					if strings.Contains(ct, "form") && r.Chance(40) {
 						mt["encoding"] = jobj("a", jobj("contentType", Pick(r, []string{"application/json", "text/plain", "bogus"}), "style", "form", "explode", r.Bool()))
 					}
@@ -334,6 +343,14 @@ func c10Random(r *Rng) C10Case {
 			}
 			if r.Chance(30) {
 				op["security"] = []any{jobj("k", []any{}), jobj()}
+			}
+			if r.Chance(45) {
+				// parameters of the operation itself (next to those of the path item)
+				var ops []any
+				for k := 0; k < 1+r.Intn(2); k++ {
+					ops = append(ops, jobj("name", Pick(r, []string{"limit", "opq", "X-Op"})+fmt.Sprint(k), "in", Pick(r, []string{"query", "header"}), "required", r.Chance(40), "schema", c10Schema(r, 1)))
+				}
+				op["parameters"] = ops
 			}
 			item[meth] = op
 			methodsOf[tpl] = append(methodsOf[tpl], strings.ToUpper(meth))
@@ -484,10 +501,7 @@ func init() {
 			meta.Histogram["responses accepted"] += o.RespOK
 			// a schema that reaches itself through allOf/anyOf/oneOf without consuming the value: unbounded
 			// recursion in the parameter decoder and in VisitJSON (recorded finding; identified by the document's shape)
-			cyc := false
-			if pb, _ := json.Marshal(c.Doc["paths"]); regexp.MustCompile(`#/components/schemas/R(Any|All|One)"`).Match(pb) {
-				cyc = true
-			}
+			cyc := c10UsesCycle(c)
 			for pi, p := range o.Panics {
 				if cyc && (p == "fatal:traffic" || p == "hang") {
 					p += ":schema-reaches-itself-through-a-composition"
